@@ -140,6 +140,33 @@ def h_include(params, vals, ctx):
     return c01.decode_matches(isa, params["mn"], params["expect"], o.code[off:off + n], b + off, v2)
 
 
+def h_shadowed_target(params, vals, ctx):
+    """A branch / relative operand to a label defined further down in its own file, while a file linked earlier exports the same name:
+    the target is the file's own label."""
+    from ref import pdp11_isa as isa
+    b, k = vals["B"], vals["K"]
+    require(0 <= b < 60000 and b % 2 == 0)
+    require(0 <= k <= 3)
+    from ..common import concretize
+    k = concretize(k)
+    insn, n = params["insn"], params["insn_len"]
+    first = "foo:: nop\n.blkb 20\n"                     # 18 bytes, exports foo at the base
+    second = insn + "\n" + ".word 0\n" * k + "foo: nop\n"
+    files = [("/w/o.mac", ".link {B}\n" + first), ("/w/a.mac", second)]
+    o = assemble(files, vals, route=ctx.route, order=["B", "K"])
+    ctx.observe_outcome(o)
+    ctx.reach(o.status == "ok")
+    if o.status != "ok" or o.errors:
+        return False
+    off = 18
+    own = b + off + n + 2 * k
+    v2 = dict(vals)
+    v2["T"] = own
+    v2["OFF"] = own - (b + off + 2)
+    v2["FIVE"] = 5
+    return c01.decode_matches(isa, params["mn"], params["expect"], o.code[off:off + n], b + off, v2)
+
+
 def h_include_then_local(params, vals, ctx):
     """'1:' of the including file is still the target of 'br 1' after an '.include' of a file that has its own '1:' and stops early."""
     import os
@@ -205,6 +232,14 @@ def obligations(tier, seed):
             obs.append(_br(mn, f"local+octal-{k}" + ("-label-exists" if extra else ""), text, 20, 22, {"OFF": {"c": 2 + kv - 22}}))
         text = f".link {{B}}\nG: .word 0\n1: .word 0\n2: .blkb 20\n{mn} {op}2 - 1 + 1\n"     # 'label 2' minus ONE plus ONE
         obs.append(_br(mn, "local-octal+octal", text, 20, 22, {"OFF": {"c": 4 - 22}}))
+    for tag, insn, ilen, expect in (
+            ("br", "br foo", 2, [{"kind": "disp", "offvar": "OFF"}]),
+            ("bne", "bne foo", 2, [{"kind": "disp", "offvar": "OFF"}]),
+            ("rel", "mov foo, r1", 4, [{"kind": "g", "mode": 6, "reg": 7, "ext": "pcrel", "x": "T"}, {"kind": "g", "mode": 0, "reg": 1, "ext": None}]),
+            ("reldef", "clr @foo", 4, [{"kind": "g", "mode": 7, "reg": 7, "ext": "pcrel", "x": "T"}])):
+        obs.append(Ob(oid=f"shadowed-export/{tag}", harness="pdpverif.props.c04:h_shadowed_target",
+                      params={"insn": insn, "insn_len": ilen, "mn": insn.split()[0], "expect": expect}, vars={"B": "int", "K": "int"}, timeout=300, per_path=90,
+                      note="o.mac: foo:: nop / .blkb 20 || a.mac: " + insn + " / <K words> / foo: nop"))
     # ---- a local label of the including file used after an include whose file stops early ('.end', second inclusion of a '.once' file)
     for mn in ("br", "sob"):
         for how in ("end", "once-second", "plain"):
